@@ -155,6 +155,7 @@ class Ref:
 class Raised:
     exc: str
     info: object = None
+    cond_of: object = None      # optional {class name: z3 Bool}: when the alternatives of a multi-class exception are split by a handler, each side learns which class it was
 
 BYTE_ARR = z3.ArraySort(z3.IntSort(), z3.BitVecSort(8))
 INT_ARR = z3.ArraySort(z3.IntSort(), z3.IntSort())
@@ -737,7 +738,22 @@ class Engine:
             if isinstance(a, (bytes, SBytes)) != isinstance(b, (bytes, SBytes)):
                 if isinstance(op, ast.Eq): return False
                 if isinstance(op, ast.NotEq): return True
-            raise Unsupported("bytes comparison")
+            if isinstance(op, (ast.Eq, ast.NotEq)):
+                # byte strings of which one has a known short length: same length and the same octets (no quantifier needed)
+                def klen(v):
+                    if isinstance(v, bytes): return len(v)
+                    n_ = z3.simplify(v.n); return n_.as_long() if z3.is_int_value(n_) else None
+                ka, kb = klen(a), klen(b)
+                short, other = (a, b) if ka is not None and ka <= 32 else (b, a) if kb is not None and kb <= 32 else (None, None)
+                if short is not None and (isinstance(a, SBytes) or isinstance(b, SBytes)):
+                    k_ = klen(short); ref = a if isinstance(a, SBytes) else b
+                    esort = ref.arr.sort().range()
+                    lit = (lambda v: z3.BitVecVal(v, esort.size())) if z3.is_bv_sort(esort) else (lambda v: z3.IntVal(v))
+                    el = lambda v, k: lit(v[k]) if isinstance(v, bytes) else v.at(z3.IntVal(k))
+                    ln = lambda v: z3.IntVal(len(v)) if isinstance(v, bytes) else v.n
+                    eq = z3.And(ln(other) == k_, *[el(short, k) == el(other, k) for k in range(k_)])
+                    return SBool(eq if isinstance(op, ast.Eq) else z3.Not(eq))
+            raise Unsupported(f"bytes comparison {a!r} {b!r}")
         if isinstance(a, SBV) or isinstance(b, SBV):
             wa, wb = width_of(a), width_of(b)
             if wa is not None and wb is not None:
@@ -936,6 +952,10 @@ class Engine:
 
     def e_Call(s, e, st, ctx):
         out = []
+        if s.is_logger_call(e) and e.func.attr == "isEnabledFor":
+            # the logging configuration belongs to the environment: whether a level is enabled is an arbitrary Boolean at every test
+            # (over-approximation: a property that holds must hold with and without debug logging)
+            return [(st, SBool(fresh("log_enabled", z3.BoolSort())))]
         for st1, f in s.eval(e.func, st, ctx):
             if isinstance(f, Raised): out.append((st1, f)); continue
             arg_exprs = [a.value if isinstance(a, ast.Starred) else a for a in e.args]
@@ -1510,8 +1530,12 @@ class Engine:
                 if caught and len(caught) < len(alts):
                     # some of the possible classes are caught here, others propagate: split the path
                     rest = tuple(a for a in alts if a not in caught)
-                    st_rest = st1.fork(); outs += s._dispatch_rest(stmt, h, st_rest, Raised(rest if len(rest) > 1 else rest[0], val.info), ctx)
-                    val = Raised(caught if len(caught) > 1 else caught[0], val.info)
+                    st_rest = st1.fork()
+                    if val.cond_of:
+                        st_rest.pc.append(z3.Or([val.cond_of[a] for a in rest if a in val.cond_of] or [z3.BoolVal(True)]))
+                        st1.pc.append(z3.Or([val.cond_of[a] for a in caught if a in val.cond_of] or [z3.BoolVal(True)]))
+                    outs += s._dispatch_rest(stmt, h, st_rest, Raised(rest if len(rest) > 1 else rest[0], val.info, val.cond_of), ctx)
+                    val = Raised(caught if len(caught) > 1 else caught[0], val.info, val.cond_of)
                 if caught:
                     if h.name: st1.locals[h.name] = ("exc", val.exc)       # the caught exception object (a plain value, not a pending raise)
                     saved = st1.locals.get("__handling__"); st1.locals["__handling__"] = val
